@@ -131,6 +131,10 @@ pub fn run(ctx: &mut Ctx) {
     let z0 = namespace_ending_in(0x00, 3);
     for case in ctx.cases(800, 60_000) {
         let mut rng = ctx.rng(case);
+        if case % 8 == 7 {
+            actor_case(ctx, case, &mut rng);
+            continue;
+        }
         let backend = if rng.chance(1, 6) { Backend::File } else { Backend::Memory };
         let (mut store, _p) = new_store(backend, &scratch);
         // documents: sorted neighbours
@@ -305,5 +309,63 @@ pub fn run(ctx: &mut Ctx) {
             ctx.sample(json!({"case": case, "trace": trace}));
         }
         let _ = E::of; // keep import used
+    }
+}
+
+/// The same rule through the store actor: removal is refused while another handle is held, and
+/// removes exactly the named document otherwise.
+fn actor_case(ctx: &mut Ctx, case: u64, rng: &mut Rng) {
+    use iroh_docs::actor::OpenOpts;
+    let docs = [Doc::Write(crate::gen::namespace(1)), Doc::Write(crate::gen::namespace(2))];
+    let mut store = Store::memory();
+    for d in &docs {
+        store.import_namespace(d.capability()).unwrap();
+        let n = rng.range(1, 6);
+        fill(rng, &mut store, d, n);
+    }
+    let ids = [docs[0].id(), docs[1].id()];
+    let before: Vec<DocObs> = ids.iter().map(|i| observe(&mut store, *i).unwrap()).collect();
+    let handles = rng.range(1, 3);
+    let closes_before_drop = rng.below(handles);
+    let rt = crate::act::runtime(1);
+    let (refused, store_back) = rt.block_on(async {
+        let h = crate::act::spawn(store);
+        for _ in 0..handles {
+            let _ = h.open(ids[0], OpenOpts::default()).await;
+        }
+        for _ in 0..closes_before_drop {
+            let _ = h.close(ids[0]).await;
+        }
+        let r = h.drop_replica(ids[0]).await;
+        (r.is_err(), h.shutdown().await.ok())
+    });
+    ctx.eval();
+    ctx.count("actor_removals", 1);
+    let Some(mut store) = store_back else {
+        ctx.violation(case, "shutdown-did-not-return-the-store", json!({}));
+        return;
+    };
+    // drop_replica releases one handle itself: refused iff more than one handle was still held
+    let still_held = handles - closes_before_drop;
+    let want_refused = still_held > 1;
+    let detail = json!({"handles_opened": handles, "closed_before": closes_before_drop, "refused": refused});
+    if refused != want_refused {
+        ctx.violation(case, if refused { "removal-of-closed-document-failed" } else { "removed-while-open" }, detail);
+        return;
+    }
+    let after: Vec<DocObs> = ids.iter().map(|i| observe(&mut store, *i).unwrap()).collect();
+    if after[1] != before[1] {
+        ctx.violation(case, "other-document-changed:actor", detail);
+        return;
+    }
+    if refused {
+        if after[0] != before[0] {
+            ctx.violation(case, "refused-removal-changed-the-document", detail);
+        }
+    } else {
+        if !after[0].entries.is_empty() || !after[0].heads.is_empty() || after[0].peers.is_some() || after[0].kind.is_some() || after[0].loadable {
+            ctx.violation(case, "removed-document-still-shows:actor", detail);
+        }
+        ctx.nontrivial(h64(format!("actor{case}{handles}{closes_before_drop}").as_bytes()));
     }
 }
